@@ -38,6 +38,7 @@
 #endif
 #include "fileops.h"
 #include "readpass.h"
+#include "core/ascon-verif.h"
 
 #define ASCON_PBKDF2_ROUNDS 8192
 
@@ -492,7 +493,9 @@ static int encrypt_file(const char *infilename, const char *outfilename)
     ascon80pq_aead_init(&state, siv_copy.nonce, siv_copy.key);
     ascon80pq_aead_start(&state, (const unsigned char *)&siv, sizeof(siv));
     size = 0;
-    while (exit_val) {
+    while (exit_val)
+    ASCON_VERIF_LOOP(encrypt_file)
+    {
         len = safe_file_read(&input, data, sizeof(data));
         if (len < 0) {
             exit_val = 0;
@@ -607,7 +610,9 @@ static int decrypt_file(const char *infilename, const char *outfilename)
         (&state, (const unsigned char *)&siv_copy, sizeof(siv_copy));
     size = 0;
     exit_val = 1;
-    while (exit_val) {
+    while (exit_val)
+    ASCON_VERIF_LOOP(decrypt_file)
+    {
         len = safe_file_read(&input, data + 16, sizeof(data) - 16);
         if (len < 0) {
             exit_val = 0;
